@@ -15,6 +15,20 @@
 
 namespace rime {
 
+#ifdef RIME_VERIF_HOOKS
+// verification-only instrumentation (add-only, off unless RIME_VERIF_HOOKS is
+// defined): a virtual steady clock, in milliseconds, for the mode-switch tap
+// window below, so that a harness can replay key histories deterministically;
+// negative = use the real clock
+RIME_DLL long long verif_ascii_clock_ms = -1;
+#define RIME_VERIF_ASCII_NOW(now)                                 \
+  if (verif_ascii_clock_ms >= 0)                                  \
+  now = std::chrono::steady_clock::time_point(                    \
+      std::chrono::milliseconds(verif_ascii_clock_ms))
+#else
+#define RIME_VERIF_ASCII_NOW(now) ((void)0)
+#endif
+
 static struct AsciiModeSwitchStyleDefinition {
   const char* repr;
   AsciiModeSwitchStyle style;
@@ -82,6 +96,7 @@ ProcessResult AsciiComposer::ProcessKeyEvent(const KeyEvent& key_event) {
     if (key_event.release()) {
       if (shift_key_pressed_ || ctrl_key_pressed_) {
         auto now = std::chrono::steady_clock::now();
+        RIME_VERIF_ASCII_NOW(now);
         if (((is_shift && shift_key_pressed_) ||
              (is_ctrl && ctrl_key_pressed_)) &&
             now < toggle_expired_) {
@@ -98,6 +113,7 @@ ProcessResult AsciiComposer::ProcessKeyEvent(const KeyEvent& key_event) {
       // will not toggle unless the toggle key is released shortly
       const auto toggle_duration_limit = std::chrono::milliseconds(500);
       auto now = std::chrono::steady_clock::now();
+      RIME_VERIF_ASCII_NOW(now);
       toggle_expired_ = now + toggle_duration_limit;
     }
     return kNoop;
